@@ -256,8 +256,8 @@ REGISTRY = {
         "quick": ["c13_"],
         "thorough": ["c13t_"],
         "cbmc_args": ["--max-field-sensitivity-array-size", "256"],
-        "min_quick": 45,
-        "min_thorough": 52,
+        "min_quick": 41,
+        "min_thorough": 48,
         "timeout_quick": 1200,
         "timeout_thorough": 2400,
         "functions": [
@@ -290,7 +290,7 @@ REGISTRY = {
         "thorough": ["c13_", "c13t_"],
         "cbmc_args": ["--max-field-sensitivity-array-size", "256"],
         "min_quick": 20,
-        "min_thorough": 52,
+        "min_thorough": 48,
         "timeout_quick": 900,
         "timeout_thorough": 2400,
         "functions": [
@@ -303,5 +303,63 @@ REGISTRY = {
         "outside": ["Program::parse / deep CLVM nesting (clvmr deserializer)", "time and peak allocation as measurements",
                     "Signature / G1 decoding inside blst"],
         "assumptions": [],
+    },
+    "C12": {
+        "level_text": "Bounded proof (Kani/CBMC) of the structural half: which byte strings parse as proofs (single node: EMPTY / leaf / "
+                      "truncated, unknown tags, missing and trailing bytes), the leaf-position audit (a revealed leaf is accepted only "
+                      "on the branch spelled by its own leading bit, for every combination of leading bits of one and two leaves), "
+                      "what a parsed tree states about a queried item (included iff equal to a revealed leaf on its path; a truncated "
+                      "side proves nothing), and that validate_merkle_proof refuses every root other than the proof's own.",
+        "level_note": "Hash function: S3 model - the statements hold for any hash function. Soundness against forged proofs is reduced to "
+                      "this audit plus SHA-256 collision resistance (assumption, DESIGN.md C12). Tag bytes and the leading byte of each "
+                      "hash are fixed per instance (symbolic ones make the parser's stack of bit vectors path-dependent: > 12 GB); the "
+                      "rest of each hash (bytes 1 and 31) and the queried item are symbolic. Honest-proof completeness / root "
+                      "canonicity on a 2-element set (from_leafs + radix_sort) did not finish in 17 minutes and is outside.",
+        "quick": ["c12_"],
+        "thorough": ["c12t_"],
+        "cbmc_args": ["--max-field-sensitivity-array-size", "256"],
+        "min_quick": 18,
+        "min_thorough": 21,
+        "timeout_quick": 900,
+        "timeout_thorough": 1800,
+        "functions": [
+            "chia_consensus::merkle_tree::MerkleSet::{from_proof (deserialize_proof_impl), get_root, generate_proof (generate_proof_impl)}",
+            "chia_consensus::merkle_tree::validate_merkle_proof",
+            "chia_consensus::merkle_tree::get_bit, merkle_set::hash",
+        ],
+        "bounds": {"proof shapes": "1 node; MIDDLE with two leaves; MIDDLE with one EMPTY side; MIDDLE with one TRUNCATED side "
+                                   "(at most 1 MIDDLE node, proofs of 1..68 bytes)",
+                   "hashes": "leading byte fixed per instance (both values of the audited bit), bytes 1 and 31 symbolic",
+                   "unwind": "40..70"},
+        "stubs": [S3],
+        "outside": ["from_leafs / compute_merkle_set_root (radix sort + hashing): root canonicity and honest-proof completeness",
+                    "proofs with 2 or more MIDDLE levels, pad_middles_for_proof_gen chains", "cryptographic soundness (collision resistance)"],
+        "assumptions": ["SHA-256 collision resistance for the step 'same root => same node hashes'"],
+    },
+    "C17": {
+        "level_text": "Bounded proof (Kani/CBMC): for each listed tree (every leaf kind around the precomputed table's edges, pairs, a DAG "
+                      "with a shared inner pair, two trees through one memo cache in both orders) the plain routine, the memoizing "
+                      "routine with a fresh cache and with a warm cache all return the recursive definition "
+                      "H(1||atom) / H(2||H(l)||H(r)), for every hash function H that maps the 24 small-atom preimages to the baked "
+                      "table; the two primitives hash prefix 1 / prefix 2 followed by exactly their arguments.",
+        "level_note": "S3 recorder with a digest that returns PRECOMPUTED_HASHES on 0x01 / 0x01 i (i<24). That the table holds the real "
+                      "SHA-256 digests is attempted with the real software compression function in the thorough tier "
+                      "(c17t_precomputed_table_real_sha); tree_hash_from_bytes (back-reference deserializer) and curry_tree_hash are outside.",
+        "quick": ["c17_"],
+        "thorough": ["c17t_pair"],
+        "min_quick": 12,
+        "min_thorough": 13,
+        "timeout_quick": 1200,
+        "timeout_thorough": 2400,
+        "functions": [
+            "clvm_utils::{tree_hash, tree_hash_cached, tree_hash_atom, tree_hash_pair}",
+            "clvm_utils::TreeCache::{visit_tree, get, insert, should_memoize}",
+        ],
+        "bounds": {"trees": "up to 3 pairs; leaves: nil, 1, 23, 24, 200 (NodePtr-embedded), heap atoms of 1 and 3 symbolic bytes",
+                   "cache histories": "2 trees x both orders, each hashed twice", "unwind": "40..110"},
+        "stubs": [S1, S2, "S3 with precomputed-table-aware digest"],
+        "outside": ["tree_hash_from_bytes with back-references (clvmr deserializer)", "curry_tree_hash vs actual curried program",
+                    "deep / wide trees", "PRECOMPUTED_HASHES == real SHA-256 unless c17t_precomputed_table_real_sha finishes"],
+        "assumptions": ["PRECOMPUTED_HASHES[i] == SHA-256(0x01 || i) (24 constants)"],
     },
 }
